@@ -109,3 +109,56 @@ func H_C10_restore() {
 	sc.vRestart()
 	zzverif.Assert(vActiveOnChannel(sc.svc, a, b, c) <= 1, "C10.one_active_swap_per_channel_restored")
 }
+
+// vNonTerminalOnChannel counts the swaps the node knows (active map and store) that are not finished and
+// belong to the channel, each id once.
+func vNonTerminalOnChannel(sc *vScenario, a, b, c string) int {
+	seen := map[string]bool{}
+	n := 0
+	count := func(id string, sm *SwapStateMachine) {
+		if seen[id] || sm.IsFinished() {
+			return
+		}
+		g := sm.Data.GetScid()
+		if g == vScid(a, b, c, false) || g == vScid(a, b, c, true) {
+			seen[id] = true
+			n++
+		}
+	}
+	for id, sm := range sc.svc.activeSwaps {
+		count(id, sm)
+	}
+	for _, id := range sc.env.store.ids() {
+		count(id, sc.env.store.recs[id])
+	}
+	return n
+}
+
+// H_C10_requestAfterRestore: after a restart - also one during which a local service failed while the swap
+// was being recovered - a request for the channel of a stored non-terminal swap is still refused: the
+// node never knows two non-terminal swaps (active or only stored) for one channel.  Bound: <= 1 injected
+// fault during the restart, none afterwards.
+func H_C10_requestAfterRestore() {
+	a, b, c := "539268", "845", "1"
+	role, st := rOutReceiver, State_SwapOutReceiver_AwaitClaimInvoicePayment
+	if zzverif.Bool("existing.taker") {
+		role, st = rOutSender, State_SwapOutSender_AwaitTxConfirmation
+	}
+	sc := vBuild(role, st, false, 7)
+	sc.env.w.maxPayAttempts = 1
+	sc.env.w.narrow = sc.sm.Data
+	sc.sm.Data.SwapOutRequest.Scid = vScid(a, b, c, zzverif.Bool("existing.colon"))
+	sc.env.store.recs[sc.id] = vSnapshot(sc.sm)
+	sc.env.policy.newSwaps, sc.env.policy.allowed, sc.env.policy.suspicious, sc.env.policy.minMsat = true, true, false, 0
+	zzverif.Unwind(16)
+	sc.env.w.maxFaults = 1
+	sc.vRestart()
+	sc.env.w.maxFaults = sc.env.w.faults // no further faults
+	newScid := vScid(a, b, c, zzverif.Bool("new.colon"))
+	asset, network := vChainFields(sc.liquid)
+	id := vSwapId("new.id")
+	zzverif.Assume(id.String() != sc.id)
+	m := &SwapInRequestMessage{ProtocolVersion: 7, SwapId: id, Asset: asset, Network: network, Scid: newScid, Amount: zzverif.U64("new.amount"), Pubkey: zzverif.HexStr("new.pubkey", 33), PremiumLimit: zzverif.I64("new.limit")}
+	sc.svc.OnMessageReceived(vPeer, vHexType(messages.MESSAGETYPE_SWAPINREQUEST), vMarshal(m))
+	zzverif.Assert(vNonTerminalOnChannel(sc, a, b, c) <= 1, "C10.one_non_terminal_swap_per_channel_after_restore")
+}
